@@ -832,8 +832,17 @@ def run(ctx):
                 raw_writers.setdefault(b.path, []).append((nm, "%s:%d" % (b.file, t["line"])))
     allowed_raw = {
         "<unix::Tty as std::io::Write>::write": "the tty write primitive itself",
-        "unix::UnixTerminal::new_from_fd::{closure#0}": "waker: writes one byte to the self-pipe, not the tty (checked by C17)",
     }
+    # the waker: whatever closure is handed to TerminalWaker::new (found by data flow, not by its closure number); private helpers
+    # expanded into it write on its behalf (`hosts`)
+    for wb in prog.bodies:
+        if not (wb.file or "").endswith("unix.rs"):
+            continue
+        for bb, t in wb.calls():
+            if call_matches(t, r"^terminal::TerminalWaker::new$") and t["args"]:
+                d = value_def(wb, t["args"][0])
+                if d and d[0] == "agg" and d[1].get("ak") == "closure":
+                    allowed_raw[d[1]["def"]] = "waker: writes one byte to the self-pipe, not the tty (checked by C17)"
     tty_write_callers = []
     for path, sites in sorted(raw_writers.items()):
         for (callee, site) in sites:
@@ -849,7 +858,7 @@ def run(ctx):
                     if not (b and b.kind == "Closure" and b.closure_root in poll_family):
                         ctx.violation("WHO-WRITES-TTY", path, "Tty::write",
                                       "Tty::write is called outside the consume_with closure of UnixTerminal::poll: bytes can bypass or race the write queue", sites=[site])
-            elif path not in allowed_raw:
+            elif not all(h in allowed_raw for h in hosts(prog, path)):
                 ctx.violation("WHO-WRITES-TTY", path, callee.split("::")[-1],
                               "raw write to a file descriptor outside the allowed set %s" % sorted(allowed_raw), sites=[site])
     if not tty_write_callers:
@@ -919,17 +928,42 @@ def run(ctx):
     if cwb is None:
         ctx.anchor("RETURNS-FROM", "IOQueue::consume_with")
     else:
-        cons = [(bb, t) for bb, t in cwb.calls() if call_matches(t, r"^common::IOQueue::consume$")]
+        # the consume call: in consume_with itself, or in a closure of it that a Result combinator runs on the consumer's Ok value
+        # (`consumer(..).map(|size| { self.consume(size); size })`, and_then / inspect / map_or.. alike)
+        CONSUMER_RX = r"FnOnce::call_once$"
+        COMBINATOR_RX = r"Result::<T, E>::(map|and_then|inspect|map_or|map_or_else|is_ok_and)$"
+        cons = [(cwb, bb, t) for bb, t in cwb.calls() if call_matches(t, r"^common::IOQueue::consume$")]
+        cw_closures = {}
+        for cb0 in prog.bodies:
+            if cb0.kind == "Closure" and cb0.closure_root in family(cwb):
+                cb = inl(prog, cb0.path, keep=r"^common::IOQueue::(consume|as_slice)$") or cb0
+                cw_closures[cb0.path] = cb
+                cons += [(cb, bb, t) for bb, t in cb.calls() if call_matches(t, r"^common::IOQueue::consume$")]
         if len(cons) != 1:
             ctx.anchor("RETURNS-FROM", "consume_with/consume", "expected one consume call")
         else:
-            bb, t = cons[0]
-            og = origins(cwb, t["args"][1])
-            ctx.instance("RETURNS-FROM", {"fn": cwb.path, "consume_amount_origins": sorted(str(o) for o in og)})
-            if not (og and all(o[0] == "call" and re.search(r"FnOnce::call_once$", o[2]) for o in og)):
+            cb, bb, t = cons[0]
+            og = origins(cb, t["args"][1])
+            if cb is not cwb:
+                # inside a closure: the amount must be the closure's parameter, and the closure must be run by a Result combinator
+                # on the consumer's result (only then on Ok, with the Ok value)
+                fed = []
+                for bb3, t3 in cwb.calls():
+                    if not call_matches(t3, COMBINATOR_RX):
+                        continue
+                    for a in t3["args"][1:]:
+                        d = value_def(cwb, a)
+                        if d and d[0] == "agg" and d[1].get("ak") == "closure" and d[1]["def"] == cb.path:
+                            fed.append(origins(cwb, t3["args"][0]))
+                if og == {("arg", 2)} and len(fed) == 1:
+                    og = fed[0]
+                else:
+                    og = {("closure", cb.path, str(sorted(map(str, og))))}
+            ctx.instance("RETURNS-FROM", {"fn": cb.path, "consume_amount_origins": sorted(str(o) for o in og)})
+            if not (og and all(o[0] == "call" and re.search(CONSUMER_RX, o[2]) for o in og)):
                 ctx.violation("RETURNS-FROM", cwb.path, "consume-amount",
                               "consume() amount is not exactly the consumer's return value: %s" % sorted(map(str, og)),
-                              sites=["%s:%d" % (cwb.file, t["line"])])
+                              sites=["%s:%d" % (cb.file, t["line"])])
             # and the slice handed to the consumer is as_slice() of self
             calls = [(bb2, t2) for bb2, t2 in cwb.calls() if call_matches(t2, r"FnOnce::call_once$")]
             for bb2, t2 in calls:
